@@ -3,7 +3,7 @@ From Coq Require Import List String.
 From VQ.Gen Require Import w_euclid.
 Import ListNotations.
 Open Scope string_scope.
-Lemma pin_w_euclid : w_euclid =
+Definition pinned_w_euclid : list string :=
   ["EuclideanCodebook.forward:embed_onehot:setitem";
    "EuclideanCodebook.forward:self:expire_codes_";
    "EuclideanCodebook.forward:self:init_embed_";
@@ -15,4 +15,5 @@ Lemma pin_w_euclid : w_euclid =
    "EuclideanCodebook.replace:self.embed.data[ind]:setitem";
    "EuclideanCodebook.replace:self.embed_avg.data[ind]:setitem";
    "EuclideanCodebook.update_ema:self.embed.data:copy_"].
+Lemma pin_w_euclid : w_euclid = pinned_w_euclid.
 Proof. reflexivity. Qed.
